@@ -10,7 +10,7 @@ func (m *NfdMgmtThread) Vf18FillQueue() int {
 	n := 0
 	for {
 		select {
-		case m.channel <- NfdMgmtCmd{Module: "verif", Cmd: "noop", Retries: 0}:
+		case m.channel <- NfdMgmtCmd{Module: "verif", Cmd: "noop", Retries: 1}: // one attempt: the consumer then pauses
 			n++
 		default:
 			return n
